@@ -3562,3 +3562,264 @@ func E4SliceLengthGuarded(c *core.Ctx, r *core.Report) {
 	r.Count("E4.slice-length-guarded", n)
 	r.Floor("E4.slice-length-guarded", 2)
 }
+
+// E4ListLinks: the doubly linked list of break points stays consistent through its three mutators.
+func E4ListLinks(c *core.Ctx, r *core.Report) {
+	r.Rule("E4.list-links", "text.Breakpoints (the active and inactive node lists of Linebreak) is a doubly linked list. Its mutators are interpreted abstractly, path by path over their if/else structure (pointer fields as a store from (abstract object, field) to abstract object, no solver; a test `x == nil` binds x on its branches; the early return of the membership guard ends a path) and on every path that reaches the end the links are mutually consistent: InsertBefore(b, at): b.next = at, at.prev = b, and the old predecessor p of at has p.next = b with b.prev = p, or the head is b when there was none; Push(b): the old tail t has t.next = b, b.prev = t, tail = b, or head = tail = b for an empty list; Remove(b): predecessor and successor (or head/tail) are joined and b's own links are cleared. A one-sided link makes Has/Remove disagree with the traversal: a node deactivated at a forced break stays active, or the newly inserted node is lost")
+	p := c.MustPkg("text")
+	info := p.TypesInfo
+	type store map[[2]string]string
+	type pathRes struct {
+		st    store
+		binds map[string]string
+		cond  []string
+	}
+	run := func(fd *ast.FuncDecl) []pathRes {
+		var out []pathRes
+		resolve := func(b map[string]string, s string) string {
+			for {
+				n, ok := b[s]
+				if !ok {
+					return s
+				}
+				s = n
+			}
+		}
+		var eval func(e ast.Expr, st store, b map[string]string) string
+		eval = func(e ast.Expr, st store, b map[string]string) string {
+			switch v := core.Unparen(e).(type) {
+			case *ast.Ident:
+				return resolve(b, v.Name)
+			case *ast.SelectorExpr:
+				s := eval(v.X, st, b)
+				if s == "" {
+					return ""
+				}
+				if val, ok := st[[2]string{s, v.Sel.Name}]; ok {
+					return resolve(b, val)
+				}
+				return resolve(b, s+"."+v.Sel.Name+"₀")
+			}
+			return ""
+		}
+		copySt := func(st store) store {
+			o := store{}
+			for k, v := range st {
+				o[k] = v
+			}
+			return o
+		}
+		copyB := func(b map[string]string) map[string]string {
+			o := map[string]string{}
+			for k, v := range b {
+				o[k] = v
+			}
+			return o
+		}
+		var exec func(list []ast.Stmt, st store, b map[string]string, cond []string, k func(store, map[string]string, []string))
+		exec = func(list []ast.Stmt, st store, b map[string]string, cond []string, k func(store, map[string]string, []string)) {
+			if len(list) == 0 {
+				k(st, b, cond)
+				return
+			}
+			rest := list[1:]
+			switch x := list[0].(type) {
+			case *ast.ReturnStmt:
+				return // early return: the list is untouched on this path (or the path ended)
+			case *ast.AssignStmt:
+				st = copySt(st)
+				vals := make([]string, len(x.Rhs))
+				for i, rhs := range x.Rhs {
+					vals[i] = eval(rhs, st, b)
+				}
+				for i, l := range x.Lhs {
+					if se, ok := core.Unparen(l).(*ast.SelectorExpr); ok && i < len(vals) {
+						if o := eval(se.X, st, b); o != "" {
+							st[[2]string{o, se.Sel.Name}] = vals[i]
+						}
+					}
+				}
+				exec(rest, st, b, cond, k)
+			case *ast.IfStmt:
+				thenB, elseB := copyB(b), copyB(b)
+				thenC, elseC := append(append([]string{}, cond...), c.Src(x.Cond)), append(append([]string{}, cond...), "!("+c.Src(x.Cond)+")")
+				if be, ok := core.Unparen(x.Cond).(*ast.BinaryExpr); ok && (be.Op == token.EQL || be.Op == token.NEQ) {
+					l, rr := eval(be.X, st, b), eval(be.Y, st, b)
+					if rr == "nil" && l != "" && l != "nil" {
+						if be.Op == token.EQL {
+							thenB[l] = "nil"
+						} else {
+							elseB[l] = "nil"
+						}
+					}
+				}
+				exec(append(append([]ast.Stmt{}, x.Body.List...), rest...), st, thenB, thenC, k)
+				switch e := x.Else.(type) {
+				case *ast.BlockStmt:
+					exec(append(append([]ast.Stmt{}, e.List...), rest...), st, elseB, elseC, k)
+				case *ast.IfStmt:
+					exec(append([]ast.Stmt{e}, rest...), st, elseB, elseC, k)
+				default:
+					exec(rest, st, elseB, elseC, k)
+				}
+			default:
+				exec(rest, st, b, cond, k)
+			}
+		}
+		exec(fd.Body.List, store{}, map[string]string{}, nil, func(st store, b map[string]string, cond []string) {
+			// resolve the final store under the path's bindings
+			fin := store{}
+			for k, v := range st {
+				fin[[2]string{resolve(b, k[0]), k[1]}] = resolve(b, v)
+			}
+			out = append(out, pathRes{fin, b, cond})
+		})
+		return out
+	}
+	get := func(pr pathRes, obj, field string) string {
+		o := obj
+		for {
+			n, ok := pr.binds[o]
+			if !ok {
+				break
+			}
+			o = n
+		}
+		if v, ok := pr.st[[2]string{o, field}]; ok {
+			return v
+		}
+		v := o + "." + field + "₀"
+		for {
+			n, ok := pr.binds[v]
+			if !ok {
+				return v
+			}
+			v = n
+		}
+	}
+	paramNames := func(fd *ast.FuncDecl) []string {
+		var ns []string
+		for _, f := range fd.Type.Params.List {
+			for _, n := range f.Names {
+				ns = append(ns, n.Name)
+			}
+		}
+		return ns
+	}
+	n := 0
+	check := func(name string, post func(pr pathRes, recv string, ps []string) string) {
+		fd := core.FuncDecl(p, "Breakpoints."+name)
+		if fd == nil || fd.Recv == nil || len(fd.Recv.List[0].Names) == 0 {
+			r.Fail("E4.list-links", "text.Breakpoints."+name, c.Pos(p.Syntax[0].Pos()), "method not found")
+			return
+		}
+		_ = info
+		recv := fd.Recv.List[0].Names[0].Name
+		ps := paramNames(fd)
+		paths := run(fd)
+		if len(paths) == 0 {
+			r.Fail("E4.list-links", "text.Breakpoints."+name, c.Pos(fd.Pos()), "no path reaches the end of the method")
+			return
+		}
+		for i, pr := range paths {
+			n++
+			key := fmt.Sprintf("text.Breakpoints.%s|path %d of %d", name, i+1, len(paths))
+			if len(pr.st) == 0 {
+				r.OK("E4.list-links", key, c.Pos(fd.Pos()), strings.Join(pr.cond, "; ")+": nothing is written, the list is unchanged")
+			} else if bad := post(pr, recv, ps); bad != "" {
+				r.Fail("E4.list-links", key, c.Pos(fd.Pos()), fmt.Sprintf("on the path [%s] %s", strings.Join(pr.cond, "; "), bad))
+			} else {
+				r.OK("E4.list-links", key, c.Pos(fd.Pos()), strings.Join(pr.cond, "; "))
+			}
+		}
+	}
+	check("InsertBefore", func(pr pathRes, recv string, ps []string) string {
+		if len(ps) != 2 {
+			return "expected (b, at)"
+		}
+		b, at := ps[0], ps[1]
+		p0 := at + ".prev₀"
+		if v, ok := pr.binds[p0]; ok {
+			p0 = v
+		}
+		if got := get(pr, b, "next"); got != at {
+			return fmt.Sprintf("%s.next is %s, not %s", b, got, at)
+		}
+		if got := get(pr, at, "prev"); got != b {
+			return fmt.Sprintf("%s.prev is %s, not %s: the list is linked forward only, Has(%s) and Remove(%s) no longer see its predecessor", at, got, b, at, at)
+		}
+		if p0 == "nil" {
+			if got := get(pr, recv, "head"); got != b {
+				return fmt.Sprintf("%s had no predecessor but the head is %s, not %s", at, got, b)
+			}
+			return ""
+		}
+		if got := get(pr, p0, "next"); got != b {
+			return fmt.Sprintf("the old predecessor's next is %s, not %s", got, b)
+		}
+		if got := get(pr, b, "prev"); got != p0 {
+			return fmt.Sprintf("%s.prev is %s, not the old predecessor of %s", b, got, at)
+		}
+		return ""
+	})
+	check("Push", func(pr pathRes, recv string, ps []string) string {
+		if len(ps) != 1 {
+			return "expected (b)"
+		}
+		b := ps[0]
+		h0 := recv + ".head₀"
+		if v, ok := pr.binds[h0]; ok {
+			h0 = v
+		}
+		if h0 == "nil" {
+			if get(pr, recv, "head") != b || get(pr, recv, "tail") != b {
+				return "an empty list does not get head = tail = " + b
+			}
+			return ""
+		}
+		t0 := recv + ".tail₀"
+		if got := get(pr, t0, "next"); got != b {
+			return fmt.Sprintf("the old tail's next is %s, not %s", got, b)
+		}
+		if got := get(pr, b, "prev"); got != t0 {
+			return fmt.Sprintf("%s.prev is %s, not the old tail", b, got)
+		}
+		if got := get(pr, recv, "tail"); got != b {
+			return fmt.Sprintf("the tail is %s, not %s", got, b)
+		}
+		return ""
+	})
+	check("Remove", func(pr pathRes, recv string, ps []string) string {
+		if len(ps) != 1 {
+			return "expected (b)"
+		}
+		b := ps[0]
+		p0, n0 := b+".prev₀", b+".next₀"
+		if v, ok := pr.binds[p0]; ok {
+			p0 = v
+		}
+		if v, ok := pr.binds[n0]; ok {
+			n0 = v
+		}
+		if p0 == "nil" {
+			if got := get(pr, recv, "head"); got != n0 {
+				return fmt.Sprintf("the first node is removed but the head is %s, not its successor", got)
+			}
+		} else if got := get(pr, p0, "next"); got != n0 {
+			return fmt.Sprintf("the predecessor's next is %s, not the successor of %s", got, b)
+		}
+		if n0 == "nil" {
+			if got := get(pr, recv, "tail"); got != p0 {
+				return fmt.Sprintf("the last node is removed but the tail is %s, not its predecessor", got)
+			}
+		} else if got := get(pr, n0, "prev"); got != p0 {
+			return fmt.Sprintf("the successor's prev is %s, not the predecessor of %s", got, b)
+		}
+		if get(pr, b, "prev") != "nil" || get(pr, b, "next") != "nil" {
+			return "the removed node keeps a link: Has() still reports it as a member"
+		}
+		return ""
+	})
+	r.Count("E4.list-paths", n)
+	r.Floor("E4.list-paths", 6)
+}
